@@ -93,10 +93,12 @@ def run(chk):
         burst = rng.choice([1, 2, 3])
         mode = "err" if i % 2 == 0 else "block"
         evs = []
-        for p in (1, 2):
+        # two distinct identities that differ in one byte only (the first, a middle or the last one: see `peer` in the driver)
+        pa, pb = rng.choice([(1, 2), (2, 3), (6, 12), (3, 9), (4, 5), (0, 4), (8, 14)])
+        for p in (pa, pb):
             for j in range(burst + 3):
-                evs.append("%d@%d" % (p, 0 if p == 1 else 5))
-        evs.append("1@%d" % (period * (burst + 2)))
+                evs.append("%d@%d" % (p, 0 if p == pa else 5))
+        evs.append("%d@%d" % (pa, period * (burst + 2)))
         rl.append("ratelayer %s %d %d %s" % (mode, period, burst, " ".join(evs)))
     ri = run_impl("layers", rl, shards=len(rl))
     for c, a in zip(rl, ri):
@@ -122,12 +124,13 @@ def run(chk):
         if mode == "err" and not refused:
             chk.monitor_fail("ReturnError mode let burst+3 simultaneous requests through", dict(case=c, impl=a))
         # peers independent: peer 2 gets at least its burst although peer 1 exhausted its quota first
-        n2 = len([r for r in oks if r[0] == "2"])
-        n1 = len([r for r in oks if r[0] == "1"])
+        pa, pb = t[4].split("@")[0], t[4 + burst + 3].split("@")[0]
+        n2 = len([r for r in oks if r[0] == pb])
+        n1 = len([r for r in oks if r[0] == pa])
         if mode == "err" and (n2 < burst or n1 < burst):
             chk.monitor_fail("a peer got fewer than its burst (%d,%d < %d): quotas are not per peer" % (n1, n2, burst), dict(case=c, impl=a))
         # window bound (general) on invocation timestamps per peer, 5 ms tolerance per replenishment
-        for p in ("1", "2"):
+        for p in (pa, pb):
             ts = sorted(int(x[1]) for x in inv if x[0] == p)
             for i in range(len(ts)):
                 for j in range(i, len(ts)):
